@@ -51,7 +51,17 @@ theorem generated_maptotags_shape :
      before l (·.isCall "AddTags") (·.isCall "WriteAuditLogToFile") &&
      before l (·.isCall "WriteAuditLogToFile") (fun a => a.isCall "Send" && a.args == ["ip"])) = true := by decide
 
+/-- tags are copied entry by entry into the record's own map: `AddTags` is exactly a loop of `AddTag`,
+and `AddTag` only writes `ai.Tags[k]` (no map is ever adopted by reference, so two records never share
+a tag map) -/
+theorem generated_tags_copied :
+    (Scipipe.FileIP_AddTags == [⟨.rangeB_, "tags", "", ["k", "v"]⟩, ⟨.call_, "AddTag", "ip", ["k", "v"]⟩, ⟨.endB_, "range", "", []⟩] &&
+     count (fun a => a.kind == .assign_) Scipipe.FileIP_AddTag == 2 &&
+     Scipipe.FileIP_AddTag.any (fun a => a.kind == .assign_ && a.name == "ai.Tags[k]" && a.args == ["v"]) &&
+     Scipipe.FileIP_AddTag.any (fun a => a.kind == .assign_ && a.name == "ai" && a.args == ["ip.AuditInfo()"])) = true := by decide
+
 end SciVerif.Tie
+#print axioms SciVerif.Tie.generated_tags_copied
 #print axioms SciVerif.Tie.generated_audit_record_shape
 #print axioms SciVerif.Tie.generated_times_bracket_command
 #print axioms SciVerif.Tie.generated_auditinfo_fields
